@@ -98,6 +98,24 @@ class NoCache:
 SCALARS = [None, True, False, 0, 1, -1, 2 ** 70, 0.0, -0.0, 1.0, 1.5, float('inf'), 1e-320, '', 'a', '1', 'True', ' ', 'é', 'a/b', '_is_task',
            Color.RED, Color.BLUE, Shade.RED, Level.LOW, Name.A]
 UNSUPPORTED = [b'x', {1, 2}, object(), 1j, bytearray(b'x')]
+from fractions import Fraction      # noqa: E402
+HASHABLE_UNSUPPORTED = [b'x', frozenset({1}), Fraction(1, 3), object(), 1j, range(3), frozendict({1: 'a'}), frozendict({('k',): 1})]
+
+
+def hashable_unsupported_shapes():
+    """Unsupported values that are hashable, placed where no list/dict forces a rebuild: directly, in tuples, in nested
+    tuples, next to supported values, inside a frozendict value."""
+    for u in HASHABLE_UNSUPPORTED:
+        yield u
+        yield (u,)
+        yield (1, u)
+        yield ((u,),)
+        yield (u, (1, 2), 'a')
+        yield (Leaf(1), u)
+        yield frozendict({'k': u})
+        yield (frozendict({'k': (u,)}),)
+        yield [(u,)]
+        yield {'k': (1, (u,))}
 
 
 def spec_norm(v):
@@ -163,7 +181,7 @@ def same(a, b):
 def check_c15(tier):
     n = 0
     leaves = SCALARS + [Leaf(1), Leaf((1, 2)), Holder(v=[Leaf(1), Leaf(1)])]
-    for v in trees(2 if tier == 'quick' else 3, leaves + UNSUPPORTED + [{1: 'a'}, {('a',): 1}, [{2: 2}]]):
+    for v in itertools.chain(trees(2 if tier == 'quick' else 3, leaves + UNSUPPORTED + [{1: 'a'}, {('a',): 1}, [{2: 2}]]), hashable_unsupported_shapes()):
         n += 1
         try:
             want = spec_norm(v)
@@ -218,6 +236,23 @@ def check_c15(tier):
                 return f'pickle copy of Holder(v={v!r}) lost what post_init derives: derived={getattr(c, "derived", "<missing>")!r}, original {t1.derived!r}', n
             if getattr(c, '_results_map', None) is not None or getattr(c, 'context', None) is not None:
                 return 'pickle copy carries results/context', n
+        # a task that has been given a context / result_meta / results map (as the serial runner does to the caller's own
+        # objects) is still copied as a VALUE: the copy is equal and carries none of that run-time state
+        import threading
+        t3 = Holder(v=v)
+        t3.set_context({'dataset': [1, 2, 3], 'lock': threading.Lock()})
+        t3._set_result_meta(labtech.types.ResultMeta(start=None, duration=None))
+        t3._set_results_map({})
+        for proto in (0, 2, pickle.HIGHEST_PROTOCOL):
+            try:
+                c3 = pickle.loads(pickle.dumps(t3, protocol=proto))
+            except BaseException as ex:   # noqa
+                return f'a task that was given a context can no longer be pickled (protocol {proto}): {type(ex).__name__}: {ex}', n
+            if c3 != t3 or hash(c3) != hash(t3) or c3.cache_key != t3.cache_key:
+                return f'pickle copy of a task with run-time state differs (eq/hash/cache_key), protocol {proto}', n
+            if getattr(c3, 'context', None) is not None or getattr(c3, '_results_map', None) is not None or getattr(c3, 'result_meta', None) is not None:
+                return (f'pickle copy (protocol {proto}) of a task that was given a context carries run-time state: context={getattr(c3, "context", None)!r}, '
+                        f'result_meta={getattr(c3, "result_meta", None)!r}'), n
         deps = get_direct_dependencies(t1)
         if sorted(map(id, deps)) != sorted({id(t) for t in spec_tasks_in(t1.v)} | {id(t) for t in spec_tasks_in(t1.w)}):
             return f'get_direct_dependencies(Holder(v={v!r})) misses/duplicates instances', n
@@ -307,6 +342,8 @@ def check_c09(tier):
     vals = [1, 'a', None, 1.5, True, Color.BLUE, Level.HIGH, Name.A, (1, 'b'), [Leaf(1), Leaf(2)], {'k': Leaf(3), 'j': [1, (2,)]}, Leaf((Color.RED,)), (),
             frozendict(), ((Leaf(1),),), {'deep': {'er': [Leaf({'x': Color.RED})]}}]
     tasks = [Holder(v=v) for v in vals] + [Leaf(1), Leaf('1'), LeafX(1), Leaf2(1)]
+    # the same type nested in itself, with the nested task also cached on its own (one Serializer instance sees both)
+    tasks += [Holder(v=Holder(v=1)), Holder(v=(Holder(v=None), Holder(v='a'))), Holder(v=Holder(v=Holder(v=1.5))), Holder(w=Holder(v=Color.BLUE))]
     n = len(tasks)
     with tempfile.TemporaryDirectory() as d:
         lab = labtech.Lab(storage=d, runner_backend='serial')
@@ -328,6 +365,15 @@ def check_c09(tier):
                     return f'cached_tasks([{ty.__name__}]) returned a task of type {type(g).__name__}', n
             if len(got) != len({w.cache_key for w in want}):
                 return f'cached_tasks([{ty.__name__}]) returned {len(got)} tasks for {len({w.cache_key for w in want})} cached entries', n
+        # several types in one query, in both orders, and a type listed twice: every entry still exactly once
+        per_type = {ty: len(lab.cached_tasks([ty])) for ty in (Holder, Leaf, LeafX, Leaf2)}
+        for query in ([Holder, Leaf, LeafX, Leaf2], [Leaf2, LeafX, Leaf, Holder], [Leaf, Leaf], [LeafX, Leaf, LeafX], [Holder, Holder, Leaf]):
+            got = lab.cached_tasks(query)
+            want_n = sum(per_type[ty] for ty in set(query))
+            keys = [g.cache_key for g in got]
+            if len(got) != want_n or len(set(keys)) != len(keys):
+                dup = sorted({k for k in keys if keys.count(k) > 1})
+                return f'cached_tasks({[t.__name__ for t in query]}) returned {len(got)} tasks for {want_n} entries (keys listed more than once: {dup[:2]})', n
         # running the returned tasks loads the stored results
         got = lab.cached_tasks([Holder, Leaf])
         res = lab.run_tasks(got, disable_progress=True, disable_top=True)
